@@ -120,8 +120,10 @@ def _cphase_symbols_to_sqrt_iswap(
     # For sign = 1: theta. For sign = -1, 2pi-theta
     theta_prime = (sympy.pi - sign * sympy.pi) + sign * theta
 
-    phi = sympy.asin(np.sqrt(2) * sympy.sin(theta_prime / 4))
-    xi = sympy.atan(sympy.tan(phi) / np.sqrt(2))
+    # The argument reaches 1 at theta' = pi; rounding must not push it out of asin's real domain.
+    phi = sympy.asin(sympy.Min(1, np.sqrt(2) * sympy.sin(theta_prime / 4)))
+    # atan(tan(phi) / sqrt(2)) written without the pole of tan at phi = pi/2 (turns = 1).
+    xi = sympy.atan2(sympy.sin(phi), np.sqrt(2) * sympy.cos(phi))
 
     yield ops.rz(sign * 0.5 * theta_prime).on(a)
     yield ops.rz(sign * 0.5 * theta_prime).on(b)
